@@ -852,6 +852,20 @@ pub fn gen_c13(rng: &mut Rng, tier: Tier) -> NetProgram {
             }
         }
     }
+    // modules draw from the seeded random number generator of the simulation: a fault elsewhere must not shift the
+    // stream the healthy modules see
+    if rng.chance(1, 2) {
+        for m in &mut prog.modules {
+            for b in &mut m.beats {
+                if rng.chance(1, 3) {
+                    b.acts.push(Act::Random);
+                }
+            }
+            if rng.chance(1, 4) && m.rx.is_empty() {
+                m.rx.push(RxRule { nth: 1 + rng.below(4) as u32, act: Act::Random });
+            }
+        }
+    }
     for m in &mut prog.modules {
         m.tasks = crate::asy::gen_tasks_c13(rng);
     }
